@@ -152,7 +152,10 @@ def explore(res, rng, n):
         wanth = form * math.prod((1 + psi * k) ** -0.5 for k in ks)
         if abs(b - beta) > 1e-3 or abs(b - bf) > 1e-9 or not np.allclose(u, uf, atol=1e-9):
             fail(res, 'beta / design point are not those of FORM', case, [b, bf, beta])
-        if abs(pf - want) > 2e-4 * want or abs(pfh - wanth) > 2e-4 * wanth:
+        # the closed forms are evaluated at the exact beta; the estimates at the beta FORM found (accepted above within 1e-3: at beta = 0 the
+        # objective |u| of coptFORM is not differentiable at the solution and SLSQP stops 5e-4 away): d pf / d beta = -phi( beta ) x (factor <= ~2)
+        slack = 3.0 * float(phi(beta)) * abs(b - beta)
+        if abs(pf - want) > 2e-4 * want + slack or abs(pfh - wanth) > 2e-4 * wanth + slack:
             fail(res, 'paraboloid: estimate differs from the closed form (rotation / ordering of axes)', case, [pf, want, pfh, wanth])
     # ---- flat limit states: linear in correlated normals; flat in U space with lognormal marginals
     flat = []
